@@ -129,7 +129,16 @@ Definition c11_verdict (t : tree) (r : run_in) (impl_trace : list N) (x : expect
                       | Ok (_, p) => list_eqb N.eqb (rev (p_trace p)) impl_trace
                       | _ => true       (* a failing run has no final poll state in the model *)
                       end in
-      if negb trace_ok then 10
+      if negb trace_ok then
+        (* 12: for some label the implementation polled FEWER times than the model, whose polls are exactly one per unit of
+           work of that kind (Props/C11.v, theorems polls_each_...): some unit of work ran unpolled -- a property-level failure;
+           10: the traces differ in another way (order, extra polls) *)
+        match res with
+        | Ok (_, p) =>
+            let mt := rev (p_trace p) in
+            if existsb (fun l => Nat.ltb (length (filter (N.eqb l) impl_trace)) (length (filter (N.eqb l) mt))) mt then 12 else 10
+        | _ => 10
+        end
       else if forallb (fun kl : N * N =>
                          match run_one t config0 (Some (fst kl)) r [] with
                          | Err (ECancelled l) => N.eqb l (snd kl)
